@@ -6,24 +6,42 @@ Cases
       = normalised mean of the corner normals (zero / geometric when none stored), read-back mesh
   sr  a well-formed record list -> independent encoder -> stl.ReadMesh -> stl.WriteMesh -> parser;
       judged: the mesh read is the records, writing it again reproduces them
+  sz  sizes only, for large triangle counts (around multiples of 32768 / 65536): the size law and the
+      triangle count, mesh -> file -> mesh and records -> mesh -> file
+  sb  a well-formed record list -> independent encoder -> stl.Read -> stl.Write -> parser (the record
+      level API); judged: the records come back exactly (normals bit for bit, attribute words), twice
 Sources: StlGen (TLC BFS: every index pattern / every short record list; -simulate for more
-triangles), vh stl-random (seeded, arbitrary float values judged on bit patterns, up to 200 triangles).
+triangles), vh stl-random (seeded, arbitrary float values judged on bit patterns, up to 200 triangles;
+boundary values of float32, NaN/Inf positions, corner normals scaled by 2^-100..2^100),
+ObjStlSizes (TLC: size profiles - triangle / vertex / record counts m*T-1, m*T, m*T+1 around round
+numbers T; values drawn by the harness from the seed).
+Every case is run with one reader variant and one writer variant (harness/objstl/iomodes.go: plain,
+one byte per Read, half reads, data together with EOF, ragged, 1000-byte chunks, stl.Load / stl.Save of
+a file; bytes.Buffer, a bare io.Writer, a 16-byte bufio.Writer); the case records which.
 """
 import json
 import os
 import random
 
-from checks.objfam import judge_lines
+from checks.objfam import judge_lines, sized_profiles, assign_io, READER_ROT, WRITER_ROT
 from vlib import core
 
 PREDICATES = ["C07.WriteOk", "C07.SizeLaw", "C07.RecPositions", "C07.RecNormal", "C07.RecNormal.mean", "C07.RecNormal.none",
               "C07.ReadOk", "C07.RtCount", "C07.RtPositions", "C07.RtNormal", "C07.RtNormal.mean", "C07.RtNormal.none",
               "C07.RdCount", "C07.RdPositions", "C07.RdNormal", "C07.RdNormal.mixed",
-              "C07.RwOk", "C07.RwSize", "C07.RwPositions", "C07.RwNormal", "C07.RwNormal.mixed", "C07.RwAttr"]
-
+              "C07.RwOk", "C07.RwSize", "C07.RwPositions", "C07.RwNormal", "C07.RwNormal.mixed", "C07.RwAttr",
+              "C07.SizeLaw.large", "C07.RtCount.large", "C07.RdCount.large", "C07.RwSize.large",
+              "C07.BinReadOk", "C07.BinRecords", "C07.BinRecords.attr", "C07.BinWriteOk", "C07.BinSize", "C07.BinRewrite"]
 
 def _key(c):
-    return json.dumps({k: c.get(k) for k in ("k", "mesh", "gen", "seeded")}, sort_keys=True)
+    return json.dumps({k: c.get(k) for k in ("k", "dir", "mesh", "gen", "seeded")}, sort_keys=True)
+
+
+def _as_sb(c):
+    """The same record list through the record level API."""
+    d = json.loads(json.dumps(c))
+    d["k"] = "sb"
+    return d
 
 
 def _tlc_gen(ctx, name, cfg, *, simulate=None, depth=None):
@@ -55,6 +73,7 @@ def collect_cases(ctx, vh):
         add(*_tlc_gen(ctx, "gen-mesh", "StlGenMeshBig.cfg"), "meshgen")
         add(*_tlc_gen(ctx, "gen-meshsim", "StlGenMeshSim.cfg", simulate="num=5000", depth=12), "meshsim")
         add(*_tlc_gen(ctx, "gen-recs", "StlGenRecs5.cfg"), "recsgen")
+    cases += [_as_sb(c) for c in cases if c["k"] == "sr"]
     seen, uniq = set(), []
     for c in cases:
         k = _key(c)
@@ -63,13 +82,20 @@ def collect_cases(ctx, vh):
             uniq.append(c)
     cases = uniq
     d = ctx.scratch("rnd")
-    nsw, nsr, maxtris = (120, 120, 60) if tier == "quick" else (20000, 20000, 200)
+    nsw, nsr, nsb, maxtris = (120, 120, 60, 60) if tier == "quick" else (20000, 20000, 5000, 200)
     core.run_vh(vh, ["stl-random", "-out", os.path.join(d, "r.ndjson"), "-seed", str(seed),
-                     "-nsw", str(nsw), "-nsr", str(nsr), "-maxtris", str(maxtris)])
+                     "-nsw", str(nsw), "-nsr", str(nsr), "-nsb", str(nsb), "-maxtris", str(maxtris)])
     rnd = core.read_ndjson(os.path.join(d, "r.ndjson"))
     notes["random_cases"] = len(rnd)
     cases += rnd
-    random.Random(seed).shuffle(cases)      # lines are independent; shuffling balances the judge's shards
+    # size profiles (round 2): counts around multiples of round numbers
+    r, sized, nprof = sized_profiles(ctx, "ObjStlSizesStlQuick.cfg" if tier == "quick" else "ObjStlSizesStlBig.cfg")
+    notes["size_profiles_enumerated"] = nprof
+    notes["size_profiles_run"] = len(sized)
+    notes["size_profile_triangle_counts"] = sorted({c["seeded"]["ntris"] for c in sized})
+    cases += sized
+    random.Random(seed).shuffle(cases)      # lines are independent; the judge balances its shards by weight
+    assign_io(cases, seed)
     return cases, notes
 
 
@@ -78,13 +104,22 @@ def execute_and_judge(ctx, vh, cases, name="main", keep=None):
     cp = os.path.join(d, "cases.ndjson")
     core.write_ndjson(cp, cases)
     tp = os.path.join(d, "trace.ndjson")
-    args = ["stl-exec", "-in", cp, "-out", tp]
+    args = ["stl-exec", "-in", cp, "-out", tp, "-budget", "300" if ctx.tier == "quick" else "2400"]
     if keep:
         os.makedirs(keep, exist_ok=True)
         args += ["-keep", keep]
     core.run_vh(vh, args, timeout=1800)
     with open(tp) as f:
         raw = f.readlines()
+    stopped = None
+    if raw and raw[-1].startswith('{"k":"stop"'):
+        # the harness ended the run early (results far larger than their inputs account for, or the code
+        # under test slower by orders of magnitude): the lines before the stop line are judged; if none of
+        # them is rejected this is an infrastructure failure, never a pass (see run_family)
+        stopped = json.loads(raw.pop())
+        core.log("[exec] harness stopped after %d of %d cases: %s" % (stopped["done"], len(cases), stopped["why"]))
+        del cases[stopped["done"]:]
+        ctx.extra["stopped_early"] = stopped
     if len(raw) != len(cases):
         raise core.Infra("stl-exec wrote %d lines for %d cases" % (len(raw), len(cases)))
     findings, ex = judge_lines(ctx, name, raw, module="TraceStl")
@@ -95,13 +130,15 @@ def execute_and_judge(ctx, vh, cases, name="main", keep=None):
 
 def signature(f, case):
     p = f["pred"].split(".", 1)[1]
-    if case["k"] == "sw":
+    if case["k"] == "sw" or (case["k"] == "sz" and case["dir"] == "w"):
         op = "WriteMesh" if p in ("WriteOk", "SizeLaw", "RecPositions", "RecNormal") else "WriteMesh+ReadMesh"
+    elif case["k"] == "sb":
+        op = "Read" if p in ("BinReadOk", "BinRecords") else "Read+Write"
     else:
         op = "ReadMesh" if p in ("ReadOk", "RdCount", "RdPositions", "RdNormal") else "ReadMesh+WriteMesh"
     sig = "%s/%s" % (f["pred"], op)
     why = [w for w in f["why"] if w in ("PANIC", "ERROR", "TIMEOUT") or w.startswith("PROJECT-")]
-    if p in ("WriteOk", "ReadOk", "RwOk") and why:
+    if p in ("WriteOk", "ReadOk", "RwOk", "BinReadOk", "BinWriteOk") and why:
         sig += "/" + "+".join(why)
     return sig
 
@@ -117,10 +154,11 @@ def nontrivial(case):
 
 def selftest(ctx, raw):
     """Binding self-test: corrupt one logged field of accepted lines; TLC must reject each."""
-    want = {"sw-size": None, "sw-rec": None, "sw-normal": None, "sw-rd": None, "sr-rd": None, "sr-f2": None}
+    want = {"sw-size": None, "sw-rec": None, "sw-normal": None, "sw-rd": None, "sr-rd": None, "sr-f2": None,
+            "sb-attr": None, "sb-f2": None, "sz-size": None, "sz-count": None}
     for ln in raw:
         o = json.loads(ln)
-        if o["k"] == "sw" and o["werr"] == "" and o["rerr"] == "" and len(o["f"]["recs"]) >= 2:
+        if o["k"] == "sw" and o["werr"] == "" and o["rerr"] == "" and 2 <= len(o["f"]["recs"]) <= 300:
             if want["sw-size"] is None:
                 c = json.loads(ln)
                 c["f"]["nbytes"] += 2                       # two stray bytes
@@ -141,7 +179,7 @@ def selftest(ctx, raw):
                 c = json.loads(ln)
                 c["rd"]["idx"] = c["rd"]["idx"][:-3]           # a triangle missing after reading back
                 want["sw-rd"] = (c, "C07.RtCount")
-        if o["k"] == "sr" and o["rerr"] == "" and o["werr"] == "" and len(o["gen"]) >= 2:
+        if o["k"] == "sr" and o["rerr"] == "" and o["werr"] == "" and 2 <= len(o["gen"]) <= 300:
             if want["sr-rd"] is None:
                 c = json.loads(ln)
                 p = c["rd"]["pos"][c["rd"]["idx"][1]]
@@ -151,6 +189,25 @@ def selftest(ctx, raw):
                 c = json.loads(ln)
                 c["f2"]["count"] -= 1                       # count field disagrees with the records
                 want["sr-f2"] = (c, "C07.RwSize")
+        if o["k"] == "sz" and o["rerr"] == "" and o["werr"] == "":
+            if want["sz-size"] is None and o["dir"] == "w":
+                c = json.loads(ln)
+                c["f"]["nbytes"] -= 50                      # one record short, the count field still says n
+                c["f"]["nrecs"] -= 1
+                want["sz-size"] = (c, "C07.SizeLaw")
+            if want["sz-count"] is None and o["dir"] == "r":
+                c = json.loads(ln)
+                c["rdn"] -= 65536                           # a 16 bit counter wrapped
+                want["sz-count"] = (c, "C07.RdCount")
+        if o["k"] == "sb" and o["rerr"] == "" and o["werr"] == "" and len(o["gen"]) >= 1:
+            if want["sb-attr"] is None:
+                c = json.loads(ln)
+                c["bin"][-1]["a"] += 1                       # an attribute word changed by Read
+                want["sb-attr"] = (c, "C07.BinRecords")
+            if want["sb-f2"] is None:
+                c = json.loads(ln)
+                c["f2"]["recs"][0]["n"][0] ^= 1             # last bit of a stored normal changed by Write
+                want["sb-f2"] = (c, "C07.BinRewrite")
         if all(v is not None for v in want.values()):
             break
     missing = [k for k, v in want.items() if v is None]
@@ -174,14 +231,24 @@ def run_family(ctx, prefix="C07"):
     ctx.extra.update(notes)
     ctx.extra["exercised"] = {k: ex.get(k, 0) for k in PREDICATES}
     ctx.extra["non_finite_normal_written_for_degenerate_zero_normal_record"] = ex.get("note.nonFiniteNormalWritten", 0)
-    ctx.extra["cases_by_kind"] = {k: sum(1 for c in cases if c["k"] == k) for k in ("sw", "sr")}
-    ctx.extra["max_triangles"] = max([c["seeded"]["ntris"] for c in cases if c.get("seeded")] + [0])
+    ctx.extra["cases_by_kind"] = {k: sum(1 for c in cases if c["k"] == k) for k in ("sw", "sr", "sb", "sz")}
+    ctx.extra["max_triangles"] = max([c["seeded"]["ntris"] for c in cases if c.get("seeded") and c["k"] != "sz"] + [0])
+    ctx.extra["max_triangles_sizes_only"] = max([c["seeded"]["ntris"] for c in cases if c["k"] == "sz"] + [0])
+    ctx.extra["cases_by_reader_variant"] = {str(m): sum(1 for c in cases if c["io"] == m) for m in sorted(set(READER_ROT))}
+    ctx.extra["cases_by_writer_variant"] = {str(m): sum(1 for c in cases if c["wio"] == m) for m in sorted(set(WRITER_ROT))}
     ctx.nontrivial = sum(1 for c in cases if nontrivial(c))
     ctx.rule = ("cases: TLC BFS of StlGen (every index pattern of <=2 triangles over 3,4%s vertices, with/without normals; "
-                "every list of <=%d records from 6 templates), TLC -simulate walks (4 triangles), seeded recorder "
-                "(arbitrary floats, up to %d triangles); distinct by mesh / record list; non-trivial: >=1 triangle and "
-                "a non-identity index pattern, or >=1 record"
-                % ("" if ctx.tier == "quick" else ",5", 3 if ctx.tier == "quick" else 5, ctx.extra["max_triangles"]))
+                "every list of <=%d records from 6 templates, through ReadMesh/WriteMesh and through Read/Write), TLC "
+                "-simulate walks (4 triangles), seeded recorder (arbitrary floats incl. float32 boundary values, up to %d "
+                "triangles), TLC-enumerated size profiles (counts m*T-1, m*T, m*T+1 up to %d triangles%s; up to %d triangles "
+                "judged on the size law and the triangle count only); every case "
+                "with one of 12 reader and 4 writer variants; distinct by mesh / record list; non-trivial: >=1 triangle "
+                "and a non-identity index pattern, or >=1 record"
+                % ("" if ctx.tier == "quick" else ",5", 3 if ctx.tier == "quick" else 5,
+                   max([c["seeded"]["ntris"] for c in cases if c.get("tag") == "random"] + [0]),
+                   ctx.extra["max_triangles"],
+                   ", the heavier ones rotating with the seed" if ctx.tier == "quick" else "",
+                   ctx.extra["max_triangles_sizes_only"]))
     for c in (cases[5], cases[-1]):
         ctx.sample({"k": c["k"], "tag": c.get("tag"),
                     "shape": c.get("seeded") or (c["mesh"]["idx"] if c["k"] == "sw" else [r["n"] for r in c["gen"]])})
@@ -196,7 +263,9 @@ def run_family(ctx, prefix="C07"):
         per_sig[sig] = per_sig.get(sig, 0) + 1
         if per_sig[sig] > 3:
             continue
-        what = "%s rejected a %s %s case" % (f["pred"], c.get("tag", ""), c["k"])
+        what = "%s rejected a %s %s case%s (reader variant %d, writer variant %d)" % (
+            f["pred"], c.get("tag", ""), c["k"],
+            " of %d triangles" % c["seeded"]["ntris"] if c.get("seeded") else "", c["io"], c["wio"])
         ctx.violation(sig, what, {"family": "stl", "case": c})
     ctx.extra["rejections_by_signature"] = per_sig
     # vacuity guard: every predicate must have been evaluated with its antecedent true (a defect that
@@ -204,6 +273,8 @@ def run_family(ctx, prefix="C07"):
     idle = [p for p in PREDICATES if ex.get(p, 0) == 0]
     known = {k["signature"] for k in core.load_known() if k.get("property") == ctx.pid and k.get("status") == "open"}
     fresh = [v for v in ctx.violations if v["signature"] not in known]
+    if ctx.extra.get("stopped_early") and not fresh:
+        raise core.Infra("the harness stopped early (%s) but no executed case was rejected" % ctx.extra["stopped_early"]["why"])
     if idle and not fresh:
         raise core.Infra("predicates never exercised: %s" % idle)
     if ctx.tier == "thorough" and not fresh:
